@@ -17,6 +17,7 @@ import (
 	"github.com/nspcc-dev/neo-go/pkg/config"
 	"github.com/nspcc-dev/neo-go/pkg/core/block"
 	"github.com/nspcc-dev/neo-go/pkg/core/native/nativehashes"
+	"github.com/nspcc-dev/neo-go/pkg/core/state"
 	"github.com/nspcc-dev/neo-go/pkg/core/storage"
 	"github.com/nspcc-dev/neo-go/pkg/core/storage/dbconfig"
 	"github.com/nspcc-dev/neo-go/pkg/core/transaction"
@@ -299,12 +300,35 @@ func (sc *scenario) runVariant(h []int, v variant) (blocks int, rec *caseRec) {
 			bc := n.BC
 			bc.VerifSetPointHook(func(int) { _ = bc.VerifPersist() })
 		}
+		// execution results are also handed to subscribers (RPC notifications): what they
+		// get must be what the ledger stores (which in turn must equal the reference)
+		execs := make(chan *state.AppExecResult, len(b.Transactions)+8)
+		n.BC.SubscribeForExecutions(execs)
 		err = n.BC.AddBlock(b)
 		n.BC.VerifSetPointHook(nil)
 		if err != nil {
 			return blocks, fail(i, "block rejected by the variant: "+err.Error(), nil)
 		}
 		blocks++
+		guard := time.After(30 * time.Second) // liveness guard only: a late dispatcher skips the comparison
+	events:
+		for k := 0; k < len(b.Transactions)+2; k++ {
+			select {
+			case a := <-execs:
+				st, err := n.BC.GetAppExecResults(a.Container, a.Trigger)
+				if err != nil || len(st) != 1 {
+					return blocks, fail(i, fmt.Sprintf("execution result delivered to subscribers not found in the ledger: %s %s", a.Container.StringLE(), a.Trigger), nil)
+				}
+				if a.VMState != st[0].VMState || a.GasConsumed != st[0].GasConsumed || len(a.Events) != len(st[0].Events) || len(a.Stack) != len(st[0].Stack) || a.FaultException != st[0].FaultException {
+					return blocks, fail(i, "execution result delivered to subscribers differs from the stored one", []string{
+						fmt.Sprintf("delivered: %s %s vmstate=%d gas=%d events=%d stack=%d", a.Container.StringLE(), a.Trigger, a.VMState, a.GasConsumed, len(a.Events), len(a.Stack)),
+						fmt.Sprintf("stored:    %s %s vmstate=%d gas=%d events=%d stack=%d", st[0].Container.StringLE(), st[0].Trigger, st[0].VMState, st[0].GasConsumed, len(st[0].Events), len(st[0].Stack))})
+				}
+			case <-guard:
+				break events
+			}
+		}
+		n.BC.UnsubscribeFromExecutions(execs)
 		if r := after(i, tn.obs); r != nil {
 			return blocks, r
 		}
@@ -362,7 +386,9 @@ func variants(r *vk.Run, depth int) []variant {
 	}
 	noverify := func(c *config.Blockchain) { c.SkipBlockVerification = true }
 	batch := func(c *config.Blockchain) { c.Ledger.SaveStorageBatch = true }
+	invoc := func(c *config.Blockchain) { c.Ledger.SaveInvocations = true }
 	vs := []variant{
+		{Name: "mem/save-invocations", Backend: "mem", Cfg: invoc, Flush: alt, Restart: all &^ alt},
 		{Name: "mem/flush-all", Backend: "mem", Flush: all},
 		{Name: "mem/restart-all", Backend: "mem", Restart: all},
 		{Name: "mem/pool", Backend: "mem", Pool: true, Flush: alt},
@@ -458,7 +484,7 @@ func tplNames(r *vk.Run) []string {
 		return strings.Split(e, ",")
 	}
 	thorough := r != nil && r.Thorough()
-	q := []string{"empty", "vote1", "vote2+transfer", "neo-transfer", "policy-fee+tx", "u-storage2", "fault-between", "caught-callee", "destroy-ub", "unregister1", "designate-notary+use"}
+	q := []string{"empty", "vote1", "vote2+transfer", "neo-transfer", "policy-fee+tx", "u-storage2", "fault-between", "caught-callee", "destroy-ub", "unregister1", "designate-notary+use", "ledger-reads"}
 	if thorough {
 		q = append(q, "gas-transfer", "unvote1", "register2", "policy-storage-price", "block-account3", "u-storage", "deploy-uc", "designate-oracle", "designate-notary", "notary-deposit", "gas-to-contract", "oracle-request", "max-traceable", "exec-fee")
 	}
